@@ -146,6 +146,9 @@ type executor struct {
 	notes         map[string]bool
 	nullPtr0      *Val
 	pktStores     []storeEvt
+	resolveFor    *knownNode
+	resolveMemo   map[*Val]*Val
+	condMemo      map[string]int8
 	noStoreEvents bool
 	pktOpaque     bool // a helper modified packet bytes (no store event describes it)
 }
